@@ -3,6 +3,8 @@
 //!
 //!   c30 gen <seed> <n> <tier>     print input lines `<config>|<code points>`
 //!   c30 exec                      read input lines, print `tag \t input \t coq-case`
+//!                                 (the case is printed as `Build_case <fields in record order>`:
+//!                                 application syntax elaborates ~4x faster than `{| .. |}`)
 //!
 //! config grammar:  B<l><s>            Bert { lowercase: l, strip_accents: s }   (l, s in 0|1)
 //!                  NFC|NFD|NFKC|NFKD  Unicode::*
@@ -527,6 +529,20 @@ fn generate(seed: u64, n: usize, tier: &str, out: &mut impl Write) {
         for t in &texts {
             let s: String = t.iter().collect();
             writeln!(out, "{}|{}", cfg, string_to_cps(&s)).unwrap();
+        }
+    }
+    // 1b. regex run-time errors (fancy-regex backtrack limit): NormalizeError::RegexError, alone
+    //     and propagated through a Sequence
+    let err_pat = string_to_cps(r"(a+)+\1$");
+    for k in [26usize, 28, 30] {
+        let t: String = "a".repeat(k) + "!";
+        for cfg in [
+            format!("R[{}][121]", err_pat),
+            format!("S(B10 R[{}][121])", err_pat),
+            format!("S(R[{}][121] NFD)", err_pat),
+            format!("S(R[33][33] S(R[{}][121]))", err_pat),
+        ] {
+            writeln!(out, "{}|{}", cfg, string_to_cps(&t)).unwrap();
         }
     }
     // 2. seeded random texts x random configurations (nested sequences of up to 3 stages)
